@@ -7,7 +7,7 @@ void vs_region(const void *base, size_t sz, const char *name);
 /* create a scenario thread; it runs up to its first hook and parks there */
 void vs_spawn(void (*fn)(int));
 /* run the schedule: digit = Step t, 'a'+t = Flush t, 'A'+t = spurious futex return for t,
-   '!' followed by digit = EINTR for t, '~' followed by digit = the next FUTEX_WAIT of t returns ENOSYS (spuriously; wakes still reach the kernel), '^'+digit = deliver the registered signal handler on t,
+   '!' followed by digit = EINTR for t, '~' followed by digit = the next FUTEX_WAIT of t returns ENOSYS (spuriously; wakes still reach the kernel), '^'+digit = deliver the registered signal handler on t (a thread asleep in FUTEX_WAIT runs it and the wait then returns EINTR),
    '>'+digit = run t until it completes its current operation (next ret event) or blocks, '}'+digit = the same alone, at most 400 own steps, with a "t solo N ok/LIMIT/blocked" report line.
    After the string ends, remaining threads are completed round-robin (flush first). */
 void vs_run(const char *sched);
